@@ -146,6 +146,7 @@ type unaryRpcArgs struct {
 }
 
 type streamHandler struct {
+	ctx    context.Context // done once the handler has returned or was reset
 	ch     chan *goatorepo.Rpc
 	done   chan struct{}
 	cancel context.CancelFunc
@@ -418,16 +419,22 @@ func (h *handler) processStreamingRpc(
 	rpc *goatorepo.Rpc,
 ) error {
 	h.mu.Lock()
-	defer h.mu.Unlock()
 
 	resetStream := rpc.GetReset_() != nil && rpc.GetReset_().Type == "RST_STREAM"
 
 	if handler, ok := h.streams[rpc.Id]; ok {
+		// Hand the Rpc over without holding the lock: a handler which returns
+		// without having consumed everything needs the lock to unregister its
+		// stream, and must not wedge the whole connection.
+		h.mu.Unlock()
+
 		if resetStream {
 			handler.cancel()
 		} else {
 			select {
 			case handler.ch <- rpc:
+			case <-handler.ctx.Done():
+				// The handler has gone (returned or reset): nobody will read this.
 			case <-clientCtx.Done():
 				return clientCtx.Err()
 			case <-h.ctx.Done():
@@ -436,6 +443,7 @@ func (h *handler) processStreamingRpc(
 		}
 		return nil
 	}
+	defer h.mu.Unlock()
 
 	if resetStream {
 		// In this case we've got a reset for something that no longer exists, so can
@@ -466,6 +474,7 @@ func (h *handler) processStreamingRpc(
 	streamId := rpc.Id
 
 	h.streams[streamId] = streamHandler{
+		ctx:    ctx,
 		ch:     make(chan *goatorepo.Rpc, 1),
 		done:   make(chan struct{}, 1),
 		cancel: cancel,
